@@ -512,6 +512,66 @@ def rule_propagate(ctx, rep):
     r.note("%d child visits examined" % n)
 
 
+FRONT_OPS = {"push_front", "pop_front", "front", "front_mut", "first", "first_mut"}
+BACK_OPS = {"push_back", "push", "pop", "pop_back", "back", "back_mut", "last", "last_mut"}
+SEQ_TYPES = ("alloc::collections::linked_list::LinkedList<", "alloc::vec::Vec<", "alloc::collections::vec_deque::VecDeque<",
+             "std::collections::LinkedList<", "std::vec::Vec<", "std::collections::VecDeque<")
+
+
+def rule_stackend(ctx, rep, rid="R-C02-stackend"):
+    """A scope stack is only a stack if everything happens at one end: the end `enter` pushes to is the end `exit` pops from, the
+    end declarations are added to / removed from, and the end a lookup starts at.  (Sibling agreement over the methods of one type.)"""
+    r = rep.rule(rid, "scope stacks are used at one end only: for every sequence-typed field of an analyzer type that is both pushed to and "
+                      "popped from through `self`, all end-specific accesses (push/pop/front/back/first/last) name the same end and "
+                      "iteration starts at that end", floor=4, floor_what="end-specific accesses to scope-stack fields")
+    per = {}      # (adt, field) -> list of (op, end, body, call)
+    for b in ctx.prog.bodies.values():
+        if b.f["crate"] != "ironplc_analyzer" or b.f["argc"] < 1:
+            continue
+        has_rev = any((c.callee or c.u or "").endswith("::rev") for c in b.calls())
+        for c in b.calls():
+            name = (c.callee or c.u or "").split("::")[-1]
+            if not c.args:
+                continue
+            p = op_place(c.args[0])
+            if p is None:
+                continue
+            rt = b.root(p)
+            # through Deref (Vec -> slice): follow one deref/deref_mut call
+            if rt[0] > b.f["argc"]:
+                d = b.single_def(rt[0])
+                if d and d[0] == "call" and (d[2].callee or d[2].u or "").split("::")[-1] in ("deref", "deref_mut") and d[2].args:
+                    p2 = op_place(d[2].args[0])
+                    if p2 is not None:
+                        rt = b.root(p2)
+            if rt[0] != 1:
+                continue
+            fl = [x for x in rt[1] if isinstance(x, list) and x[0] == "f"]
+            if len(fl) != 1 or not (fl[0][5] or "").startswith(SEQ_TYPES):
+                continue
+            key = (fl[0][3], fl[0][2])
+            if name in FRONT_OPS:
+                per.setdefault(key, []).append((name, "front", b, c))
+            elif name in BACK_OPS:
+                per.setdefault(key, []).append((name, "back", b, c))
+            elif name in ("iter", "iter_mut", "into_iter"):
+                per.setdefault(key, []).append((name + (".rev" if has_rev else ""), "back" if has_rev else "front", b, c))
+    n = 0
+    for (adt, field), ops in sorted(per.items()):
+        names = {o[0] for o in ops}
+        if not (names & {"push", "push_front", "push_back"}) or not (names & {"pop", "pop_front", "pop_back"}):
+            continue        # not a stack
+        push_end = sorted({o[1] for o in ops if o[0].startswith("push")})
+        for name, end, b, c in sorted(ops, key=lambda o: (o[2].id, o[3].loc[0])):
+            n += 1
+            inst = "%s.%s|%s in %s" % (adt.replace("ironplc_analyzer::", ""), field, name, b.f["name"])
+            if len(push_end) == 1 and end == push_end[0]:
+                r.ok(inst, loc_str(b.f, c.loc), end + " end")
+            else:
+                r.finding(inst + "|other-end", loc_str(b.f, c.loc), "%s works at the %s of the sequence but scopes are pushed at the %s: declarations land in / are looked up from the wrong scope" % (name, end, "/".join(push_end)))
+    r.note("%d end-specific accesses on %d stack-like field(s)" % (n, sum(1 for k, o in per.items() if {x[0] for x in o} & {"push", "push_front", "push_back"} and {x[0] for x in o} & {"pop", "pop_front", "pop_back"})))
+
+
 def run(ctx, rep):
     rep.not_decided += ["that each rule's predicate is the documented one (value-level)", "acceptance of all valid programs",
                         "single/double-fault behaviour on generated programs"]
@@ -522,3 +582,4 @@ def run(ctx, rep):
     rule_reach(ctx, rep)
     rule_scope(ctx, rep)
     rule_propagate(ctx, rep)
+    rule_stackend(ctx, rep)
